@@ -5,7 +5,10 @@
              4 PGAdd g min mode policy mask | 5 PGUpdate g ... | 6 PGDelete g
              7 Permit p | 8 Unreserve p | 9 PostBind p | 10 AfterPostFilter p
    observable, per op:  res allowedMask rejectedMask fwMask   then for gang 1..G
-             exists init strict policy min groupMask fromCrd sat children pending waiting bound (masks) *)
+             exists init strict policy min groupMask fromCrd sat children pending waiting bound (masks)
+             then  recKeys recSat   (gangGroupInfoMap: bit m set = a record under the group id whose
+                                     gang mask is m exists / exists and is once-satisfied)
+             then for gang 1..G   recKeyMask recInitialized   (the record the gang points to) *)
 From Coq Require Import List ZArith Bool.
 From Verif Require Import Lib.Wire C04.Model C04.Spec.
 Import ListNotations.
@@ -76,10 +79,19 @@ Definition encode_gview (o : option gview) : list Z :=
                mask_of (v_bound x)]
   end.
 
+Definition encode_wire (v : sview) (g : Z) : list Z :=
+  match assocZ g (sv_wire v) with
+  | Some (k, ini) => [gmask_of k; bz ini]
+  | None => [0; 0]
+  end.
+
 Definition encode_obs (G : nat) (o : obs) : list Z :=
   let '(r, v) := o in
   [o_res r; mask_of (o_allowed r); mask_of (o_rejected r); mask_of (sv_fw v)]
-  ++ flat_map (fun g => encode_gview (vget v g)) (range1 G).
+  ++ flat_map (fun g => encode_gview (vget v g)) (range1 G)
+  ++ [mask_of (map (fun e => gmask_of (fst e)) (sv_recs v));
+      mask_of (map (fun e => gmask_of (fst e)) (filter (fun e => snd e) (sv_recs v)))]
+  ++ flat_map (encode_wire v) (range1 G).
 
 Definition run_case (inp : list Z) : list Z :=
   let '(h, ops) := decode inp in
@@ -98,12 +110,30 @@ Fixpoint decode_gviews (G : nat) (k : nat) (g : Z) (l : list Z) : list (Z * gvie
   | _, _ => ([], l)
   end.
 
+Fixpoint decode_wires (G : nat) (k : nat) (g : Z) (gs : list (Z * gview)) (l : list Z)
+  : list (Z * (list Z * bool)) * list Z :=
+  match k, l with
+  | S k', rk :: ri :: t =>
+      let '(r, rest) := decode_wires G k' (g + 1) gs t in
+      ((match assocZ g gs with Some _ => (g, (mask_group G rk, zb ri)) :: r | None => r end), rest)
+  | _, _ => ([], l)
+  end.
+
+Definition decode_recs (G : nat) (keys sat : Z) : list (list Z * bool) :=
+  map (fun m => (mask_group G m, Z.testbit sat m)) (bits keys).
+
 Fixpoint decode_obs (G : nat) (n : nat) (l : list Z) : list obs :=
   match n, l with
   | S n', res :: al :: rj :: fw :: t =>
-      if Nat.ltb (length t) (12 * G) then []
+      if Nat.ltb (length t) (14 * G + 2) then []
       else let '(gs, rest) := decode_gviews G G 1 t in
-           (mkOut res (bits al) (bits rj), mkSview (bits fw) gs) :: decode_obs G n' rest
+           match rest with
+           | keys :: sat :: rest1 =>
+               let '(ws, rest2) := decode_wires G G 1 gs rest1 in
+               (mkOut res (bits al) (bits rj), mkSview (bits fw) gs (decode_recs G keys sat) ws)
+                 :: decode_obs G n' rest2
+           | _ => []
+           end
   | _, _ => []
   end.
 
